@@ -16,9 +16,9 @@
 //! Document-side dimensions of a case: `dests` (a /Names /Dests name tree or a PDF 1.1 /Dests dictionary in
 //! every legal spelling next to the forest), `room` (the base document's max_id is placed `room` numbers
 //! below the highest usable object number u32::MAX - 1; ids >= 3*2^30 are logged minus 2^31 so that they fit
-//! TLC's integers), and the stack: the walkers under test (`small` = subset of adjust/build/toc) run on a
-//! thread with `stack_kb` KiB (default 2048, Rust's default for spawned threads), everything else on a
-//! 1 GiB thread.  Chains t1 > t2 > ... > tn of any length are logged in a compact per-level format
+//! TLC's integers), and the stack: the walkers named in `small` (subset of adjust/build/toc; given for the
+//! deep chains, where it matters) run on a thread with `stack_kb` KiB (default 2048, Rust's default for
+//! spawned threads), everything else of such a case on a 1 GiB thread.  Chains t1 > t2 > ... > tn of any length are logged in a compact per-level format
 //! (kind = "chain") that Trace_Outline!ChainJudge checks in linear time.
 use lopdf::xref::XrefType;
 use lopdf::{dictionary, Bookmark, Dictionary, Document, Object, ObjectId};
@@ -314,7 +314,7 @@ fn run_case(c: &Value) -> Value {
         small: c["small"]
             .as_array()
             .map(|a| a.iter().map(|x| x.as_str().unwrap().to_string()).collect())
-            .unwrap_or_else(|| vec!["adjust".into(), "build".into(), "toc".into()]),
+            .unwrap_or_default(),
     };
     let fmts: Vec<String> = c["fmts"]
         .as_array()
@@ -694,8 +694,10 @@ fn worker() {
     lopdf_conform::guard::quiet_panics();
     sup::worker_loop(|l| {
         let c: Value = serde_json::from_str(l).expect("case json");
-        // everything that is not a walker under test runs on a 1 GiB (lazily committed) stack
-        match on_stack(1 << 20, || guarded(|| run_case(&c))) {
+        // for deep chains everything that is not a walker under test runs on a 1 GiB (lazily committed) stack
+        let big = c["n"].as_u64().unwrap_or(0) >= 1000;
+        let run = || guarded(|| run_case(&c));
+        match if big { on_stack(1 << 20, run) } else { run() } {
             Ok(r) => r.to_string(),
             Err(p) => {
                 let mut v = c.clone();
@@ -771,9 +773,19 @@ fn class_cases(rng: &mut Rng, deep: u64) -> (Vec<Value>, Vec<Value>) {
     // object numbers at the numeric limit: `room` numbers are left above the base document's max_id
     // (2 bookmarks need 1 + 2*2 = 5; saving in the xref-stream format needs one more and Size one more)
     for (room, fmts) in [(40u32, vec!["stream"]), (13, vec!["stream"]), (5, vec![]), (4, vec![]), (3, vec![]), (1, vec![]), (0, vec![])] {
-        light.push(json!({"cls": "ids", "room": room, "np": 1, "adds": [{"parent": 0, "title": t("A"), "page": 1, "zg": 0, "fmt": 0},
+        // saving + loading a document with such numbers takes lopdf about 10 s: those two runs go to the slow batch
+        let slow = !fmts.is_empty();
+        if slow && deep < 100_000 {
+            continue;
+        }
+        let case = json!({"cls": "ids", "room": room, "np": 1, "adds": [{"parent": 0, "title": t("A"), "page": 1, "zg": 0, "fmt": 0},
             {"parent": if room % 2 == 0 { 1 } else { 0 }, "title": t("B"), "page": 1, "zg": 0, "fmt": 0}],
-            "adjust": room % 3 == 0, "style": sty(rng), "fmts": fmts, "chain": true, "post": 0, "link": "mut"}));
+            "adjust": room % 3 == 0, "style": sty(rng), "fmts": fmts, "chain": true, "post": 0, "link": "mut"});
+        if slow {
+            heavy.push(case);
+        } else {
+            light.push(case);
+        }
     }
     // chains t1 > t2 > ... > tn: one walker at a time on the small stack
     for n in [10u64, 100, 1000, 10_000, 100_000] {
@@ -795,7 +807,7 @@ fn class_cases(rng: &mut Rng, deep: u64) -> (Vec<Value>, Vec<Value>) {
                 .map(|k| json!({"parent": k - 1, "title": t(&chain_title(k)), "page": if k < n as usize { 0 } else { 2 }, "zg": 0, "fmt": 0}))
                 .collect();
             v.push(json!({"cls": "deep", "np": 2, "adds": adds, "adjust": true, "style": sty(rng), "fmts": ["table", "stream"],
-                          "chain": true, "post": 2, "link": "new"}));
+                          "chain": true, "post": 2, "link": "new", "small": ["adjust", "build", "toc"]}));
         }
         if n >= 10_000 {
             heavy.extend(v);
